@@ -30,7 +30,7 @@ EXTRA = ["max", "name", "t", "column_names", "Column Names", "col__1", "a__0", "
          "a.b", "ａ", "sort_by", "Sort By", "c", "col", "col_", "x__1", "x", "X__1", "shape", "copy", "set_index", "a- b"]
 POOL = CORE + [n for n in EXTRA if n not in CORE]
 ALPHA = list("aAbz09_ -.!é٣１Kİǅ\n\ud800") + ["__", "col", "sum", "1_", "__1", "_1"]
-OBS = ["dir", "getattr", "row", "setitem", "getitem", "repr"]
+OBS = ["dir", "getattr", "row", "rowitem", "setitem", "getitem", "repr"]
 
 
 # --------------------------------------------------------------------------------------------
@@ -345,6 +345,34 @@ class _Run:
                 except Exception as e:
                     res = [[a, _err(e)] for a in adv_names]
                 obs.append({"k": "row", "res": res})
+            elif k == "rowitem":
+                # string keys of a row: an advertised accessor gives the cell of its own column (both spellings, t[0][a] and
+                # t[0, a]); a name no column answers to — in particular a method or property of the row object — is an error
+                res, non = [], []
+                probe = ["sum", "max", "shape", "copy", "name", "cols", "index", "count", "fingerprint", "nope_zz", "T"]
+                self.log.append(f"r = t[0]; [r[a] for a in {adv_names!r}]; [t[0, x] for x in {probe!r}]   # the latter: errors unless a column answers")
+                try:
+                    firsts = [c[0] for c in t.cols()]
+                    for a in adv_names:
+                        try:
+                            v1, v2 = t[0][a], t[0, a]
+                            js = [j for j, x in enumerate(firsts) if type(v1) is int and x == v1 and type(v2) is int and v2 == v1]
+                            res.append([a, js[0] if len(js) == 1 else -1])
+                        except Exception as e:
+                            res.append([a, _err(e)])
+                    for x in probe:
+                        if x in adv_names:
+                            continue
+                        ok = []
+                        for f in (lambda: t[0][x], lambda: t[0, x]):
+                            try:
+                                f(); ok.append(False)
+                            except Exception:
+                                ok.append(True)
+                        non.append([x, all(ok)])
+                except Exception as e:
+                    res = [[a, _err(e)] for a in adv_names]
+                obs.append({"k": "rowitem", "res": res, "non": non})
             elif k == "setitem":
                 res = []
                 self.log.append(f"for k, a in enumerate({adv_names!r}): t[0, a] = 5000 + k   # must change exactly its own column")
